@@ -364,7 +364,11 @@ func checkC11(c c11Case) (ci caseInfo, err error) {
 			}
 			sys := append([]byte(nil), op.Sys...)
 			var res *ast.DataMessage
-			if pn, _ := try(func() { res = p.msg.SetSessionIDAndSystemBytes(op.N&0xFFFF, sys) }); pn {
+			sess := op.N & 0xFFFF
+			if op.N%5 == 0 {
+				sess = -1 // "no session id": legal, the message just stays incomplete
+			}
+			if pn, _ := try(func() { res = p.msg.SetSessionIDAndSystemBytes(sess, sys) }); pn {
 				continue
 			}
 			derivations++
